@@ -3,6 +3,7 @@ package checks
 import (
 	"encoding/binary"
 	"fmt"
+	"net"
 	"sort"
 	"strings"
 	"sync"
@@ -31,14 +32,15 @@ func init() {
 			if tier == "thorough" {
 				n = 40
 			}
-			return []core.Part{{Name: "registry", Bin: "raceov", Batches: n, Parallel: 4, TimeoutS: 900, Env: []string{"VERIF_YIELD=1"}}}
+			return []core.Part{{Name: "registry", Bin: "raceov", Batches: n, Parallel: 4, TimeoutS: 900, Env: []string{"VERIF_YIELD=1"}},
+				{Name: "stalled-leave", Bin: "plain", Batches: 1, TimeoutS: 300}}
 		},
 		Assumptions: []string{
 			"sequential specification (DESIGN Appendix F): per key an owner; Join ok iff free; Join exist iff taken; Leave frees iff owner; Send notexist iff free; Send delivered(c) iff owner = c",
 			"operation intervals: Join = [client's first write, OnJoinEvent]; Leave = [client close, OnLeaveEvent]; Send = [call, return]; an operation that never returned stays open to the end of the history",
 			"porcupine Unknown (checker timeout) is inconclusive; key function is the default (phone number)",
 		},
-	}, map[string]Worker{"registry": c11Worker})
+	}, map[string]Worker{"registry": c11Worker, "stalled-leave": c11StalledLeave})
 }
 
 type regIn struct {
@@ -872,4 +874,130 @@ func c11Worker(c *core.Collector, x *Ctx) {
 		c.Floor("yield_sites_hit", 15)
 	}
 	c.Floor("porcupine_ok", 20)
+}
+
+// c11StalledLeave: the ending of a connection that the SERVER gives up on. A terminal joins, floods heartbeats and never reads;
+// a server that puts a deadline on its socket writes closes that connection itself after a while (one that does not is left
+// alone for 25 s, then the terminal closes). Whichever side ends it: the leave callback runs exactly once with the key, the key
+// is free afterwards ("not exist" for commands) and the same terminal is admitted again.
+func c11StalledLeave(c *core.Collector, x *Ctx) {
+	c.Rule = "a terminal joins, floods valid heartbeats and never reads until a socket write of the server is parked; then it waits up to 25 s for the server to end the connection (else closes it itself). oracle: exactly one leave callback with the key, commands to the key come back 'not exist' afterwards, a new connection under the key is admitted and served. evaluation = one terminal"
+	srv, err := svc.Start(func() service.TerminalEventer { return svc.NewRecorder() })
+	if err != nil {
+		c.Inconclusive()
+		return
+	}
+	var wg sync.WaitGroup
+	for k := 0; k < 2; k++ {
+		wg.Add(1)
+		go func(k int) {
+			defer wg.Done()
+			c.Eval()
+			key := fmt.Sprintf("%d", 3950000+k)
+			bad := func(sig, detail string) {
+				c.Violate(sig, detail, map[string]any{"kind": "c11stalled", "key": key})
+			}
+			t, err := svc.Dial(srv.Addr, k%2 == 1, key)
+			if err != nil {
+				c.Inconclusive()
+				return
+			}
+			t.Close() // lends its frame builder only
+			raw, err := net.DialTimeout("tcp", srv.Addr, 5*time.Second)
+			if err != nil {
+				c.Inconclusive()
+				return
+			}
+			defer raw.Close()
+			raw.Write(t.Frame(0x0002, 1, nil))
+			raw.SetReadDeadline(time.Now().Add(20 * time.Second))
+			if _, err := raw.Read(make([]byte, 15)); err != nil {
+				c.Inconclusive()
+				return
+			}
+			var batch []byte
+			for q := 0; q < 1000; q++ {
+				batch = append(batch, t.Frame(0x0002, uint16(q+2), nil)...)
+			}
+			parked := false
+			pending := batch
+			start := time.Now()
+			for time.Since(start) < 30*time.Second && !parked {
+				raw.SetWriteDeadline(time.Now().Add(200 * time.Millisecond))
+				n, err := raw.Write(pending)
+				pending = pending[n:]
+				if len(pending) == 0 {
+					pending = batch
+				}
+				if err != nil {
+					if ne, ok := err.(net.Error); !ok || !ne.Timeout() {
+						break
+					}
+					parked = goroutineInIOWaitWrite()
+				}
+			}
+			if !parked {
+				c.Inconclusive()
+				return
+			}
+			// the terminal goes quiet; does the server end the connection? (read until the stream ends or 25 s have passed)
+			serverEnded := false
+			raw.SetReadDeadline(time.Now().Add(25 * time.Second))
+			buf := make([]byte, 1<<16)
+			for {
+				_, err := raw.Read(buf)
+				if err != nil {
+					if ne, ok := err.(net.Error); !ok || !ne.Timeout() {
+						serverEnded = true
+					}
+					break
+				}
+			}
+			raw.Close()
+			if serverEnded {
+				c.Count("connections_the_server_gave_up_on", 1)
+			}
+			rec := svc.Lookup(t.Phone, 1)
+			if rec == nil {
+				c.Inconclusive()
+				return
+			}
+			if !rec.WaitLeave(30 * time.Second) {
+				bad("callback|no leave callback for a joined connection that has ended", fmt.Sprintf("key %s: the connection of a terminal that had stopped reading ended (by the server: %v) and 30 s later the leave callback has not run; service goroutines: %v", key, serverEnded, goroutineDump()))
+				return
+			}
+			leaves := 0
+			for _, e := range rec.ReaderLog() {
+				if e.Kind == "leave" {
+					leaves++
+					if e.Key != key {
+						bad("callback|leave callback key differs from the join key", fmt.Sprintf("joined %q left %q", key, e.Key))
+					}
+				}
+			}
+			if leaves != 1 {
+				bad("callback|leave callback more than once for one connection", fmt.Sprintf("key %s: %d", key, leaves))
+			}
+			res := sendCmd(srv.G, key, consts.P8104QueryTerminalParams, nil, 100*time.Millisecond, 100*time.Millisecond+slackFor(100*time.Millisecond))
+			if res.kind != "notexist" {
+				bad("registry|a key whose connection has ended and left is still registered", fmt.Sprintf("key %s: SendActiveMessage -> %s", key, res.kind))
+			}
+			t2, err := svc.Dial(srv.Addr, k%2 == 1, key)
+			if err != nil {
+				c.Inconclusive()
+				return
+			}
+			defer t2.Close()
+			t2.Write(t2.Frame(0x0002, 7, nil))
+			if rx, ok, to := t2.Next(20 * time.Second); to {
+				c.Inconclusive()
+			} else if !ok || rx.F == nil || rx.F.ID != 0x8001 {
+				bad("registry|a terminal whose earlier connection has ended is not admitted again", fmt.Sprintf("key %s", key))
+			}
+			c.Count("stalled_terminals_followed_to_their_leave", 1)
+			c.NonTrivial(core.HashString("c11stalled/" + key))
+		}(k)
+	}
+	wg.Wait()
+	c.Floor("stalled_terminals_followed_to_their_leave", 1)
 }
